@@ -133,3 +133,16 @@ func (u *Unexp) SetUnexp(b string, d *int, x int) { u.b, u.d, u._x = b, d, x }
 
 // GetUnexp reads them back.
 func (u *Unexp) GetUnexp() (string, *int, int) { return u.b, u.d, u._x }
+
+// Marker is a named int used to see which codec ran (C17). D0..D7 are distinct
+// named ints reserved for registrations on the package-level default instance,
+// which cannot be reset between histories.
+type Marker int
+type D0 int
+type D1 int
+type D2 int
+type D3 int
+type D4 int
+type D5 int
+type D6 int
+type D7 int
